@@ -351,6 +351,16 @@ class C15(core.Check):
         if special in ("missing", "missing_with_sibling_decoy", "isdir") and nsteps >= 2 and k.random() < 0.7:
             # the operator repairs the tree between two calls: the retry must succeed
             steps[1]["repair"] = {victim: originals[victim]}
+        if inc_files and not special and not faults and nsteps >= 2 and k.random() < 0.5:
+            # somebody edits an include file between two calls (a value inside a quoted string changes, or the file
+            # gains a statement): the next call must show the file as it is NOW
+            vict = r.choice(inc_files)
+            lines_ = files[vict].split("\n")
+            cand = [i for i, l in enumerate(lines_) if '"' in l and not INC_RE.match(l) and not l.lstrip().startswith("#")]
+            if cand:
+                i_ = r.choice(cand)
+                lines_[i_] = lines_[i_].replace('"', '"edited ', 1)
+                steps[r.randrange(1, nsteps)]["repair"] = {vict: "\n".join(lines_)}
         if k.random() < 0.3:
             # decoys: files with the same relative names, different content, under the working directories
             for st_ in steps:
